@@ -136,6 +136,10 @@ fn items(v: &J) -> String {
             a.iter()
                 .map(|it| {
                     let n = it["n"].as_str().unwrap_or("");
+                    // `raw`: the specification's own rendering of the expression (C02 / C14)
+                    if let Some(raw) = it["raw"].as_str() {
+                        return if n.is_empty() { raw.to_string() } else { format!("{} = {}", ident(n), raw) };
+                    }
                     if n.is_empty() {
                         expr(&it["e"])
                     } else {
